@@ -67,7 +67,7 @@ def gen_group(rng, depth, inherited):
             "unlimited": unlimited}
 
 
-def write_nc(path, spec, rng):
+def write_nc(path, spec, rng, shift=0):
     import netCDF4
     import numpy as np
     values = {}
@@ -88,13 +88,13 @@ def write_nc(path, spec, rng):
             if ty == "S1":
                 data = np.array([bytes([97 + (i % 26)]) for i in range(cnt)], dtype="S1").reshape(shape)
             elif ty[0] == "f":
-                data = (np.arange(cnt) * 0.75 - 2).astype(ty).reshape(shape)
+                data = (np.arange(cnt) * 0.75 - 2 + shift).astype(ty).reshape(shape)
                 if fillv and rng.random() < 0.7:
                     data = data.copy()
                     data.flat[cnt // 2] = 99
             else:
                 info = np.iinfo(ty)
-                data = ((np.arange(cnt) * 7 + rng.randint(0, 5)) % (int(info.max) - 1)).astype(ty).reshape(shape)
+                data = ((np.arange(cnt) * 7 + rng.randint(0, 5) + shift) % (int(info.max) - 1)).astype(ty).reshape(shape)
                 if fillv and (cnt > 1 or rng.random() < 0.7):       # a stored value equal to the fill value is still the stored value
                     data.flat[cnt // 2] = 99
             v[...] = data
@@ -234,6 +234,25 @@ def main():
                 direct.append({"law": "a NetCDF file yields one variable per file variable with the file's type, shape, fully qualified "
                                       "dimension names, attributes and raw values; served hyperslabs equal the library's reads",
                                "file_spec": repr(spec)[:1800], "differences": [list(map(str, p)) for p in problems[:6]]})
+            # the file replaced at the same path (same modification time): a handler built afterwards serves the new file
+            if i % 4 == 0:
+                try:
+                    st = os.stat(path)
+                    values2 = write_nc(path, spec, random.Random(r.seed * 1000 + i + 1), shift=3)
+                    os.utime(path, (st.st_atime, st.st_mtime))
+                    h2 = NetCDFHandler(path)
+                    stats["rewritten_files"] = stats.get("rewritten_files", 0) + 1
+                    for (gp, n_), data2 in values2.items():
+                        fq2 = "/" + "/".join(gp + (n_,)) if gp else n_
+                        got2 = np.asarray(h2.dataset[fq2].data[...] if data2.shape else np.asarray(h2.dataset[fq2].data))
+                        if got2.shape != data2.shape or not np.array_equal(got2, data2):
+                            problems.append((fq2, "values after the file was replaced at the same path", got2.tolist(), data2.tolist()))
+                            break
+                    if problems:
+                        direct.append({"law": "a handler built after the file was replaced at the same path serves the new file's values",
+                                       "file_spec": repr(spec)[:1200], "differences": [list(map(str, p_)) for p_ in problems[:3]]})
+                except Exception as e:  # noqa
+                    direct.append({"law": "a handler can be built after the file was replaced at the same path", "error": repr(e)[:300]})
             scope_cases.append("(%s, %s)" % (c_grp("", spec), clist(observed, lambda o: "(%s, %s)" % (ctext(o[0]), clist(o[1], ctext)))))
             sized_cases.append("(%s, %s)" % (c_grp("", spec), clist(observed_sized, lambda o: "(%s, %s)" % (
                 ctext(o[0]), clist(o[1], lambda dn: "(%s, %d%%nat)" % (ctext(dn[0]), dn[1]))))))
@@ -247,7 +266,8 @@ def main():
             rows = []
             for _ in range(nrows):
                 rows.append(tuple(rng.choice([0, 1, -3, 2.5, 10, 15.25, 1e-3, 12345678]) if k == "num" else
-                                  rng.choice(["", "a", "Diamond St", "x,y", 'say "hi"', " lead", "7"]) for k in kinds))
+                                  rng.choice(["", "a", "Diamond St", "x,y", 'say "hi"', " lead", "7", "two\nlines", "para one\n\npara two",
+                                              " \n x"]) for k in kinds))
             path = os.path.join(tmp, "t%d.csv" % i)
             with open(path, "w", newline="") as f:
                 w = csv.writer(f, quoting=csv.QUOTE_NONNUMERIC)
